@@ -127,6 +127,10 @@ def disc_pattern(kind, n, signed, bits):
     if kind == 'descending':
         top = 100
         return [str(top - 10 * i) for i in range(n)]
+    if kind == 'hard':
+        return ['1 << 2', None, '0x10 | 3', None, '100 / 3', None, '(7 & 3) << 1', None][:n]
+    if kind == 'hard2':
+        return ['2', None, '1 << 4', None, None, '250 % 100', None, None][:n]
     if kind == 'extreme':
         mx = (1 << (bits - 1)) - 1 if signed else (1 << bits) - 1
         mn = -(1 << (bits - 1)) if signed else 0
@@ -204,9 +208,15 @@ def corpus_repr(tier, seed):
     A('usize', 'implicit', 'adjacent', n=6)
     A('isize', 'negative', 'middle', payload=True, generic=True)
     A('i16', 'gapped', 'first', n=7)
+    # discriminant expressions with shifts / division / bit operators (outside Verus' const evaluation): decided by the Kani twin (full domain, bit-precise)
+    A('u8', 'hard', 'first', n=6)
+    A('i16', 'hard', 'middle', n=8)
+    A('u32', 'hard2', 'adjacent', n=7)
+    A('i8', 'hard2', 'none', n=4)
+    A(None, 'hard', 'last', n=4)
     if tier == 'quick':
         return out
-    pats = ['implicit', 'explicit', 'negative', 'expression', 'gapped', 'descending', 'extreme']
+    pats = ['implicit', 'explicit', 'negative', 'expression', 'gapped', 'descending', 'extreme', 'hard', 'hard2']
     k = 0
     for r in REPRS:
         for pat in pats:
@@ -344,6 +354,10 @@ def corpus_parse(tier, seed, focus='C01', nm=None):
     A([V('GoneA', disabled=True), V('GoneB', 'tuple', ['u8'], disabled=True)])
     # 12 only a default variant + custom error attributes (error type falls back to the std one only via default)
     A([V('Any', 'tuple', ['Cap'], default=True), V('Gone', disabled=True)], aci=True)
+    # 13 a variant that is both default and disabled is disabled: there is no catch-all, it is never produced
+    A([V('Red'), V('Other', 'tuple', ['Cap'], default=True, disabled=True), V('Blue', aci=True)])
+    # 14 to_string only / serialize only / both, under a style: the converted identifier is NOT a spelling once an explicit one exists
+    A([V('DeepPurple', ts='purp'), V('LightBlue', ser=['lb']), V('DarkGreen', ser=['dg'], ts='dgreen'), V('PlainOne')], serialize_all='snake_case')
     if tier == 'quick':
         return out
     styles = [None, 'snake_case', 'SCREAMING_SNAKE_CASE', 'kebab-case', 'camelCase', 'PascalCase', 'lowercase', 'UPPERCASE', 'title_case', 'mixed_case', 'Train-Case', 'SCREAMING-KEBAB-CASE']
@@ -402,6 +416,12 @@ def corpus_print(tier, seed, derives=PRINTERS, with_forward=True, with_prefix=Tr
         return p
     A([V('Red'), V('GreenLeaf'), V('Blue2')])
     A([V('A', ser=['b', 'blue', 'bl']), V('B', ser=['longest', 's']), V('C', ser=['a', 'bb', 'ccc']), V('D', ser=['dd', 'd'], ts='dee'), V('E', ts='E!')])
+    # every order of three / four serialize literals of distinct lengths
+    perms = list(itertools.permutations(['d', 'dark', 'darkest']))
+    A([V('P%d' % i, ser=['%s%d' % (x, i) for x in pm]) for i, pm in enumerate(perms)] +
+      [V('Q0', ser=['darkest', 'd', 'dark', 'da']), V('Q1', ser=['da', 'darkest', 'd', 'dark']), V('Q2', 'tuple', ['u8'], ser=['dark', 'da', 'd', 'darkest'])])
+    # escaped braces are part of a fixed name (no placeholder), for every variant kind
+    A([V('Unit', ts='unit{{}}'), V('Tup', 'tuple', ['u8'], ts='tu{{p}}'), V('Named', 'named', ['u8'], ts='block{{}}'), V('Ser', 'named', ['i32'], ser=['a{{b}}c', 'x'])])
     A([V('RedFox', 'tuple', ['u8']), V('BlueSky', 'named', ['i32', 'bool']), V('HTTPPort'), V('X', ser=['explicit-Stays'])], serialize_all='kebab-case',
       **({'prefix': 'p/'} if with_prefix else {}))
     if with_prefix:
